@@ -293,6 +293,8 @@ struct Search<'a> {
     /// also require every mock-induced panic message to name the method and the pattern that the sequential
     /// explanation involves at that point
     strict_naming: bool,
+    /// weakest reading: any mock-induced panic is accepted where the explanation has some mock-induced panic
+    any_mock_panic: bool,
 }
 
 impl Search<'_> {
@@ -392,9 +394,12 @@ impl Search<'_> {
             let mut ev = vec![];
             let exp = s2.call(call.method, &call.args, false, &mut inj, &mut ev);
             let mut ok = outcome_matches(&exp, &call.obs);
+            if !ok && self.any_mock_panic {
+                ok = matches!((&exp, &call.obs), (Outcome::MockPanic { .. }, Obs::PanicString(m)) if classify_panic(m).is_some());
+            }
             if ok && self.strict_naming {
                 if let Obs::PanicString(m) = &call.obs {
-                    ok = crate::check::naming_ok(&exp, m, &s2);
+                    ok = crate::check::naming_ok_with_args(&exp, m, &s2, call.method, &call.args);
                 }
             }
             if !ok && s2.dontcare {
@@ -427,6 +432,16 @@ pub fn linearizable(case: &ConcCase, trace: &ConcTrace, cap: usize) -> (LinResul
 }
 
 pub fn linearizable_with(case: &ConcCase, trace: &ConcTrace, cap: usize, strict_naming: bool) -> (LinResult, Option<String>) {
+    linearizable_mode(case, trace, cap, strict_naming, false)
+}
+
+pub fn linearizable_mode(
+    case: &ConcCase,
+    trace: &ConcTrace,
+    cap: usize,
+    strict_naming: bool,
+    any_mock_panic: bool,
+) -> (LinResult, Option<String>) {
     let cfg = crate::build_cfg();
     let spec = Spec::build(case.partial, &case.clauses, cfg, Variant::True).expect("built before");
     let mut per_thread = vec![vec![]; case.threads.len()];
@@ -445,6 +460,7 @@ pub fn linearizable_with(case: &ConcCase, trace: &ConcTrace, cap: usize, strict_
         seen: HashSet::new(),
         final_mismatch: None,
         strict_naming,
+        any_mock_panic,
     };
     let mut done = vec![0; case.threads.len()];
     match search.rec(&spec, &mut done) {
@@ -487,8 +503,11 @@ pub fn check_conc(case: &ConcCase, trace: &ConcTrace) -> Result<Option<Discrepan
     observed.sort();
     recorded.sort();
     if observed != recorded {
+        // same number of errors recorded as observed, every observed text is a recorded one, but some thread saw a
+        // text twice / not its own: the panic of a call carried the message of another call (C19)
+        let misattributed = observed.len() == recorded.len() && observed.iter().all(|m| recorded.contains(m));
         return Ok(Some(Discrepancy {
-            props: vec!["C08", "C10"],
+            props: if misattributed { vec!["C08", "C10", "C19"] } else { vec!["C08", "C10"] },
             at: "after join".into(),
             expected: format!("shared error list = the {} mock panics observed by the threads", observed.len()),
             observed: format!("{recorded:?}"),
@@ -523,7 +542,7 @@ pub fn check_conc(case: &ConcCase, trace: &ConcTrace) -> Result<Option<Discrepan
         (LinResult::Ok, _) => Ok(Some(Discrepancy {
             props: vec!["C19", "C10"],
             at: "history: panic messages".into(),
-            expected: "every mock-induced panic message names the method and the pattern of the sequential explanation".into(),
+            expected: "every mock-induced panic message renders its own call (method and arguments) and names the pattern of the sequential explanation".into(),
             observed: format!(
                 "{:?}",
                 trace
@@ -537,6 +556,26 @@ pub fn check_conc(case: &ConcCase, trace: &ConcTrace) -> Result<Option<Discrepan
             ),
         })),
         (LinResult::Capped, _) => Err("linearizability search cap hit".into()),
+        // explainable only if the *text* of the mock-induced panics is ignored: some call panicked with a message
+        // that is not about its own error (e.g. another thread's)
+        (LinResult::None { .. }, _) if matches!(linearizable_mode(case, trace, 300_000, false, true).0, LinResult::Ok) => {
+            Ok(Some(Discrepancy {
+                props: vec!["C19", "C10", "C08"],
+                at: "history: panic messages".into(),
+                expected: "every mock-induced panic carries the message of its own call's error".into(),
+                observed: format!(
+                    "{:?}",
+                    trace
+                        .calls
+                        .iter()
+                        .filter_map(|c| match &c.obs {
+                            Obs::PanicString(m) => Some(format!("T{}#{} {}{:?}: {}", c.thread, c.idx, c.method.method_name(), c.args, m.chars().take(160).collect::<String>())),
+                            _ => None,
+                        })
+                        .collect::<Vec<_>>()
+                ),
+            }))
+        }
         (LinResult::None { explored }, why) => Ok(Some(Discrepancy {
             // no sequential explanation exists: positions (C02), counts/verdict (C03) and - if ordered
             // patterns are involved - the slot sequence (C04) are all not what any sequential run gives
